@@ -464,6 +464,9 @@ func (r *Report) finish(evidencePath, knownPath string) int {
 		fmt.Printf("VIOLATION property=%s replay=%s\n", r.Prop, vpath)
 		return 1
 	}
+	if evidencePath != "" {
+		os.Remove(strings.TrimSuffix(evidencePath, ".json") + ".violations.json") // nothing to replay any more
+	}
 	return 0
 }
 
